@@ -80,9 +80,10 @@ UNITS = [{
                         (['C03'], 'forall|j: int| 0 <= j < self.slots_spec().len() ==> *(#[trigger] r.remaining()[j]) == self.slots_spec()[j]')],
         },
         'impl GlobalEnvironment::get_slot': {
-            'props': G + ['C06'],
+            # not on the chain of C07 (the compiler does not read slots): declared for would-be callers, tagged with no claimed property
+            'props': ['C06'],
             'requires': ['slot < self.slots_spec().len()'],
-            'ensures': [(G, inst(GET_SLOT_MODEL, 'm_slots', 'm_kept', g0='*self', r0='r'))],
+            'ensures': [(['C06'], inst(GET_SLOT_MODEL, 'm_slots', 'm_kept', g0='*self', r0='r'))],
         },
         # exactly the addressed slot is written
         'impl GlobalEnvironment::put_slot': {
